@@ -294,6 +294,7 @@ uncovered = FunctionContract(
     ],
     modifies=['WARNED', 'DEBUGGED'],
     canary=[("other_uncovered = uncovered_atoms - uncovered_hydrogens", "other_uncovered = uncovered_hydrogens"),
-            ("uncovered_atoms = set(molecule.nodes.keys()) - set(mol_to_out.keys())", "uncovered_atoms = set(mol_to_out.keys()) - set(molecule.nodes.keys())")],
+            ("if other_uncovered:", "if uncovered_hydrogens:"),
+            ("if molecule.nodes[idx].get('element', '') == 'H'}", "if molecule.nodes[idx].get('element', '') != 'H'}")],
 )
 CONTRACTS.append(uncovered)
